@@ -216,7 +216,7 @@ PfnAnswer(pol, name, t1, st) ==
 
 (* ---------------- the evaluator ---------------------------------------- *)
 \* X = [lib, need, o, Dev, enwikt]  (fixed during one expand() call)
-RECURSIVE Exp(_, _, _, _, _), ExpItem(_, _, _, _, _), ExpArgsUnexp(_, _, _, _, _, _), ExpJoin(_, _, _, _, _, _),
+RECURSIVE Exp(_, _, _, _, _), ExpItem(_, _, _, _, _), ExpItem1(_, _, _, _, _), ExpArgsUnexp(_, _, _, _, _, _), ExpJoin(_, _, _, _, _, _),
           BindArgs(_, _, _, _, _, _, _), ExpSwitch(_, _, _, _, _, _)
 
 \* expand_recurse(coded, parent, expand_all): c content, f frame, ea expand_all
@@ -284,11 +284,15 @@ ExpJoin(args, i, f, ea, st, X) ==
 
 ExpItem(it0, f, ea, st0, X) ==
   \* a {{{..}}} met outside any template (kind "A" in expand_recurse) is first run through
-  \* one argument-substitution pass with no bindings
-  LET topArg == f.top /\ it0.k \in {"p", "pc"}
-      it == IF topArg THEN PassOver(<<it0>>, X)[1] ELSE it0
-      st == IF topArg THEN NotePass(st0, <<it>>) ELSE st0
-  IN
+  \* one argument-substitution pass with no bindings; the pass resolves every {{{..}}} nested in
+  \* it (st.inpass: such inner references are not passed over again)
+  IF f.top /\ it0.k \in {"p", "pc"} /\ ~st0.inpass
+  THEN LET it == PassOver(<<it0>>, X)[1]
+           r == ExpItem1(it, f, ea, [NotePass(st0, <<it>>) EXCEPT !.inpass = TRUE], X)
+       IN R(r.out, [r.st EXCEPT !.inpass = FALSE])
+  ELSE ExpItem1(it0, f, ea, st0, X)
+
+ExpItem1(it, f, ea, st, X) ==
   CASE it.k = "t" -> R(it.s, st)
     [] it.k = "deep" -> DepthCut(st)
     [] it.k = "over" -> R(Overrun, Msg(st, "overrun", "model"))
@@ -465,6 +469,6 @@ ExpItem(it0, f, ea, st0, X) ==
                          IN R(AddNL(res.out), Pop(Pop(Restore(res.st))))
 
 (* ---------------- one expand() call ---------------- *)
-InitSt(stack) == [stack |-> stack, msgs |-> <<>>, hooks |-> <<>>, ev |-> <<>>, steps |-> 0, peak |-> Len(stack)]
+InitSt(stack) == [stack |-> stack, msgs |-> <<>>, hooks |-> <<>>, ev |-> <<>>, steps |-> 0, peak |-> Len(stack), inpass |-> FALSE]
 ExpandCall(page, stack, X) == Exp(page, TopFrame, ~X.o.pre, InitSt(stack), X)
 =============================================================================
